@@ -144,11 +144,17 @@ def write_ods(path, sheets, features=(), encoding="UTF-8", **kw):
 
 
 def write_ods_raw(path, content_xml_bytes, with_content=True):
+    def entry(name, compress=True):
+        # fixed timestamps: the archive's bytes depend on the contents only, so damaged-container cases replay exactly
+        info = zipfile.ZipInfo(name, date_time=(2020, 1, 1, 0, 0, 0))
+        info.compress_type = zipfile.ZIP_DEFLATED if compress else zipfile.ZIP_STORED
+        return info
+
     with zipfile.ZipFile(path, "w", zipfile.ZIP_DEFLATED) as z:
-        z.writestr(zipfile.ZipInfo("mimetype"), "application/vnd.oasis.opendocument.spreadsheet")
+        z.writestr(entry("mimetype", compress=False), "application/vnd.oasis.opendocument.spreadsheet")
         if with_content:
-            z.writestr("content.xml", content_xml_bytes)
-        z.writestr("META-INF/manifest.xml", '<?xml version="1.0"?><manifest:manifest xmlns:manifest="urn:oasis:names:tc:opendocument:xmlns:manifest:1.0"/>')
+            z.writestr(entry("content.xml"), content_xml_bytes)
+        z.writestr(entry("META-INF/manifest.xml"), '<?xml version="1.0"?><manifest:manifest xmlns:manifest="urn:oasis:names:tc:opendocument:xmlns:manifest:1.0"/>')
 
 
 def ods_encodable(value, features):
@@ -177,6 +183,8 @@ def write_xlsx(path, sheets, typed=False):
     import xlsxwriter
 
     book = xlsxwriter.Workbook(path)
+    # fixed creation date: the workbook's bytes depend on the contents only (damaged-container cases replay exactly)
+    book.set_properties({"created": __import__("datetime").datetime(2020, 1, 1)})
     date_fmt = book.add_format({"num_format": "yyyy-mm-dd hh:mm:ss"})
     time_fmt = book.add_format({"num_format": "hh:mm:ss"})
     for table in sheets:
